@@ -102,6 +102,10 @@ def mutate_framework(S, m):
         S["Cascades"] = [["Care cascade", "Constituents"], ["Not yet recovered", "sus, inf"], ["Ever infected", "inf, rcv"]]
     elif m == "unnested_cascade_later_stage":
         S["Cascades"] = [["Care cascade", "Constituents"], ["Everybody", "sus, inf, rcv"], ["Infected", "inf"], ["Recovered", "rcv"]]
+    elif m == "capitalised_units":
+        set_cell(P, "birth", "Format", "Number")
+        set_cell(P, "rec", "Format", "Rate")
+        set_cell(P, "wane", "Format", "Duration")
     elif m == "characteristic_on_unlisted_page":
         set_cell(S["Characteristics"], "alive", "Databook Page", "chpage")
     elif m == "delete_transitions_sheet":
